@@ -200,6 +200,7 @@ class Future:
         self.owner = None
         self.member = False
         self.cb = None
+        self.value = None
         self.exception_set = False
         self.result_set = False  # ghost: completed by set_result (as opposed to cancelled / failed)
 
@@ -213,6 +214,7 @@ class Future:
         require(self.pending, "set_result-on-a-pending-future (InvalidStateError otherwise)")
         self.pending = False
         self.result_set = True
+        self.value = value
         if self.owner is not None and self.member:
             self.owner.pending = self.owner.pending - 1
 
@@ -253,7 +255,7 @@ class Future:
         self._run_done_callbacks()
         if self.exception_set:
             raise_any(Exception)
-        return None
+        return self.value
 
 
 class FutureDeque:
